@@ -14,6 +14,8 @@ Line-protocol driver for C16.
       cmpeq    = CmpEqImpliesEq holds for the collected patches
       order    = every target version parses or none does (hypothesis of C16_patchcmp_order); when 0 the comparator is
                  not a strict weak order, `slices.SortFunc`'s result is unspecified and res=unspecified on both sides
+(a') pfree <grouped> <vulns> <oldreqs> <table> g<GOMAXPROCS>r<repetition>
+    the real ComputePatches ran ungated under the Go scheduler; reply: spec=<patches> cmpeq=<0|1> order=<0|1> nspec=<n>
 (b) cache <keys> <acts>
       keys = k,k,…   key of caller 0,1,…          acts = L<t> | P<t>:<v|err> | S<k=v;…|-> | G   (comma separated)
     reply: ret=<ok<v>|err|stuck,…> f=<nfetch 0>,<nfetch 1> cls=<r|w|f per L> maps=<k=v;…/…> late=<0|1>
@@ -71,6 +73,18 @@ def vcDrv : Str → Str → Int := verCmp parseMajor (fun a b => cmpInt a b)
 def cmpEqB (c : List Patch) : Bool :=
   c.all fun a => c.all fun b => !(Patch.compare vcDrv a b == 0) || a == b
 
+def orderB (c : List Patch) : Bool :=
+  let vtos := c.flatMap (fun p => p.updates.map (·.vto))
+  vtos.all (fun v => (parseMajor v).isSome) || vtos.all (fun v => (parseMajor v).isNone)
+
+/-- the schedule-free part of the reply: the breadth-first closure (specification) and the two hypotheses of C16_final
+    evaluated on it (by C16_confluent every complete schedule collects a permutation of the same patches) -/
+def specPart (fn : Task → Option Patch) (grouped : Bool) (vulns : List Str) : String :=
+  let sf := fifo (outCP fn) (spawnCP fn grouped) 4096 (initCP vulns)
+  if sf.pending.isEmpty then
+    s!"spec={showPatches (sortCompact vcDrv sf.collected)} cmpeq={boolStr (cmpEqB sf.collected)} order={boolStr (orderB sf.collected)} nspec={sf.collected.length}"
+  else "spec=nonterminating cmpeq=0 order=0 nspec=0"
+
 def handlePatches (g vs rq tb sc : String) : String :=
   match boolOf? g, strsOf vs ",", reqsOf rq, tableOf tb, (listOf sc "/").mapM (fun t => strsOf t ".") with
   | some grouped, some vulns, some oldReqs, some tbl, some sched =>
@@ -78,17 +92,19 @@ def handlePatches (g vs rq tb sc : String) : String :=
     let out := outCP fn
     let sp := spawnCP fn grouped
     let s0 := initCP vulns
-    let fuel := 4096
-    let sf := fifo out sp fuel s0
-    let spec := if sf.pending.isEmpty then showPatches (sortCompact vcDrv sf.collected) else "nonterminating"
+    let spec := specPart fn grouped vulns
     match execTasks out sp sched s0 with
-    | none => "res=bad-schedule done=0 spec=" ++ spec
+    | none => "res=bad-schedule done=0 " ++ spec
     | some s =>
-      let vtos := s.collected.flatMap (fun p => p.updates.map (·.vto))
-      let order := vtos.all (fun v => (parseMajor v).isSome) || vtos.all (fun v => (parseMajor v).isNone)
-      let res := if order then showPatches (sortCompact vcDrv s.collected) else "unspecified"
-      s!"res={res} done={boolStr s.pending.isEmpty} spec={spec} cmpeq={boolStr (cmpEqB s.collected)} order={boolStr order} n={s.collected.length} tasks={sched.length}"
+      let res := if orderB s.collected then showPatches (sortCompact vcDrv s.collected) else "unspecified"
+      s!"res={res} done={boolStr s.pending.isEmpty} {spec} n={s.collected.length} tasks={sched.length}"
   | _, _, _, _, _ => "bad-op"
+
+/-- free run (no schedule recorded): only the specification is printed -/
+def handleFree (g vs rq tb : String) : String :=
+  match boolOf? g, strsOf vs ",", reqsOf rq, tableOf tb with
+  | some grouped, some vulns, some oldReqs, some tbl => specPart (patchFnOf oldReqs vulns tbl) grouped vulns
+  | _, _, _, _ => "bad-op"
 
 /-! ### cache -/
 open Scalibr.Cache in
@@ -144,6 +160,7 @@ def handleCache (ks as : String) : String :=
 def handle (line : String) : String :=
   match line.splitOn " " with
   | ["patches", g, vs, rq, tb, sc] => handlePatches g vs rq tb sc
+  | ["pfree", g, vs, rq, tb, _] => handleFree g vs rq tb
   | ["cache", ks, as] => handleCache ks as
   | _ => "bad-op"
 
